@@ -689,6 +689,12 @@ def check_guards(ctx, ex, f, fname, pk, p, info):
             ok = True
         ctx.check(ok, rule, f"{pk}:count-{nm}", zloc, f"len({nm}) = {ln!r} on a returning path", expected=f"= number of segments {nseg!r} (else ValueError)")
     if len(seq) != 2:
+        # a zip over the positions only whose body reads means[i] / variances[i] by an enumerate counter is a third spelling
+        # of the segment loop this rule does not read: undecided, not a violation
+        by_index = [e for e in p.events if e.kind == "list_read" and e.func is f and _seq_role(e.data.get("lst")) in ("means", "variances") and (e.loops or not isinstance(e.data.get("index"), Num) or e.data["index"].nf.as_const() != 0)]
+        if by_index and len(seq) < 2:
+            ctx.undecided(rule, f"{pk}:zip-arity", f.loc(), f"the segment zip has {len(parts)} sequences and the parameters are read by an index inside it: a spelling of the segment loop this rule cannot read")
+            return
         ctx.violation(rule, f"{pk}:zip-arity", f.loc(), f"segment zip has {len(parts)} sequences")
     # positions within the data
     if fname == "generate_changing_data":
